@@ -336,7 +336,7 @@ PROPS = {
     },
     "C18": {
         "module": "ZenonVerif.Props.C18",
-        "streams": [S("paging", 30000, 2000000), S("rpc", 6, 300, timeout=7200), S("rpcserver", 1500, 200000)],
+        "streams": [S("paging", 30000, 2000000), S("rpc", 6, 300, timeout=7200), S("rpcserver", 1000, 100000)],
         "rule": "paging stream: (index,count,len) over the full uint32 range with boundary bias + complete page sweeps of "
                 "random lists; rpc stream: the real LedgerApi called in-process on generated chains (momentums/account blocks by page "
                 "and by height, unreceived blocks) with indices, sizes, heights, counts over boundary values and the full integer "
